@@ -160,7 +160,7 @@ func runC01(t *testing.T, r *kit.Run) {
 	if r.Tape.Chance(1, 10) {
 		maxB = 40
 	}
-	f := pbfwire.Gen(r.Tape, pbfwire.Opts{MinBlocks: 0, MaxBlocks: maxB, Procs: procs, PlainNodes: plain})
+	f := pbfwire.Gen(r.Tape, pbfwire.Opts{MinBlocks: 0, MaxBlocks: maxB, Procs: procs, PlainNodes: plain, BigBlockOneIn: 24})
 	wl := kit.HashStr(2, string(f.Data))
 	r.Out.Workload = wl
 	hasPlain := false
@@ -192,6 +192,9 @@ func runC01(t *testing.T, r *kit.Run) {
 	}
 	if procs > 10 {
 		r.Out.Probe("unbuffered-channels")
+	}
+	if hasBig(f) {
+		r.Out.Probe("block-with-more-than-8000-elements")
 	}
 	r.Out.Scenario = fileScenario(f, map[string]interface{}{"decoders": procs, "policy": res.policy, "plain_node_groups": hasPlain})
 	desc := fmt.Sprintf("%d-block file (%d bytes), %d decoders", len(f.Blocks), len(f.Data), procs)
@@ -275,12 +278,21 @@ func outOfOrder(f *pbfwire.File, res *scanRes) bool {
 	return false
 }
 
+func hasBig(f *pbfwire.File) bool {
+	for _, b := range f.Blocks {
+		if len(b.Objs) > 8000 {
+			return true
+		}
+	}
+	return false
+}
+
 func runC02(t *testing.T, r *kit.Run) {
 	maxB := 12
 	if r.Tape.Chance(1, 8) {
 		maxB = 40
 	}
-	f := pbfwire.Gen(r.Tape, pbfwire.Opts{MinBlocks: 2, MaxBlocks: maxB, Procs: 3, AlwaysHeader: true})
+	f := pbfwire.Gen(r.Tape, pbfwire.Opts{MinBlocks: 2, MaxBlocks: maxB, Procs: 3, HeaderlessOneIn: 3, BigBlockOneIn: 30})
 	wl := kit.HashStr(3, string(f.Data))
 	r.Out.Workload = wl
 	ref := runScan(t, scanCfg{data: f.Data, procs: 1, cut: -1, errAt: -1, sched: kit.SchedCfg{Seed: 1, Flat: true}, maxObj: len(f.Objects()) + 20})
@@ -292,12 +304,16 @@ func runC02(t *testing.T, r *kit.Run) {
 		return
 	}
 	var execs []map[string]interface{}
-	for k := 0; k < 3; k++ {
+	nexec := 3
+	if hasBig(f) {
+		nexec = 1 // a block of > 8000 elements costs a delay point per element
+	}
+	for k := 0; k < nexec; k++ {
 		procs := drawProcsAll(r.Tape)
 		cfg := scanCfg{data: f.Data, procs: procs, cut: -1, errAt: -1, tape: r.Tape, maxObj: len(f.Objects()) + 20, trace: r.Replay}
 		cfg.sched = r.Sched
 		cfg.sched.Seed = kit.Mix(r.Sched.Seed + uint64(k))
-		slowFilters := r.Tape.Bool()
+		slowFilters := r.Tape.Bool() && !hasBig(f)
 		if slowFilters {
 			yieldingFilters(&cfg)
 		} else {
@@ -319,6 +335,12 @@ func runC02(t *testing.T, r *kit.Run) {
 		}
 		if slowFilters {
 			r.Out.Probe("slow-filter-callbacks")
+		}
+		if hasBig(f) {
+			r.Out.Probe("block-with-more-than-8000-elements")
+		}
+		if !f.Header.Present {
+			r.Out.Probe("stream-starts-with-a-data-block")
 		}
 		execs = append(execs, map[string]interface{}{"decoders": procs, "policy": res.policy, "yielding_filters": slowFilters, "out_of_order_completion": ooo})
 		desc := fmt.Sprintf("%d-block file, %d decoders, %s", len(f.Blocks), procs, res.policy)
